@@ -248,6 +248,11 @@ pub fn transition<K: Kind>(
     ctx: &mut Ctx,
 ) {
     let pname = planner_name(case.planner);
+    if st.cap_fired {
+        // harness artefact: the query cap zeroed the budget (and the tick counter) mid-call
+        ctx.label("step-skipped(query-cap-fired)");
+        return;
+    }
     if st.ticks != 1 {
         // the call ended before its iteration (uninitialised, invalid start/goal root, ...)
         if let (Some(a), Some(b)) = (snap_trees(before).first(), snap_trees(&st.snap).first()) {
